@@ -511,7 +511,7 @@ type traceEntry struct {
 func (rn *runner) execute(region *core.RegionInfo, steps []operator.OpStep) (coq []string, js []traceEntry) {
 	sim := tikvsim.New(region)
 	cur := region
-	for _, s := range steps {
+	for k, s := range steps {
 		safeRaw := s.CheckSafety(cur) == nil
 		fb := s.IsFinish(cur)
 		safe, accepted := true, false
@@ -546,8 +546,13 @@ func (rn *runner) execute(region *core.RegionInfo, steps []operator.OpStep) (coq
 		}
 		te.Region = coqRegion(cur, sim.Rng)
 		js = append(js, te)
-		coq = append(coq, fmt.Sprintf("TObs %s %s %s %s %s %s %s %s", coqfmt.Bool(safeRaw), coqfmt.Bool(fb), coqfmt.Bool(safe), coqCmd(msg), coqfmt.Bool(accepted),
-			coqfmt.ZU(s.ConfVerChanged(cur)), coqfmt.Bool(s.IsFinish(cur)), coqRegion(cur, sim.Rng)))
+		// what every EARLIER step of the plan counts in the region as it is now (Operator.ConfVerChanged sums them)
+		prev := make([]string, k)
+		for i := 0; i < k; i++ {
+			prev[i] = coqfmt.ZU(steps[i].ConfVerChanged(cur))
+		}
+		coq = append(coq, fmt.Sprintf("TObs %s %s %s %s %s %s %s %s %s", coqfmt.Bool(safeRaw), coqfmt.Bool(fb), coqfmt.Bool(safe), coqCmd(msg), coqfmt.Bool(accepted),
+			coqfmt.ZU(s.ConfVerChanged(cur)), coqfmt.List(prev), coqfmt.Bool(s.IsFinish(cur)), coqRegion(cur, sim.Rng)))
 	}
 	return
 }
